@@ -9,7 +9,8 @@ import (
 	"verifharness/hx"
 )
 
-var alphabet = []string{"0", "0", "0", "1", "9", "5", "a", "A", "b", "B", "z", "Z", "_", "[", " ", "\xc3\xa9", "{", "`", "@", ":", "/"}
+var alphabet = []string{"0", "0", "0", "1", "9", "5", "a", "A", "b", "B", "z", "Z", "_", "[", " ", "\xc3\xa9", "{", "`", "@", ":", "/",
+	"\xc3\x89", "\xc3\xaa", "\xc3\x8a", "\xe2\x84\xaa", "k", "K", "\xc5\xbf", "s", "S"} // incl. É ê Ê, Kelvin sign, long s: Unicode-fold-equal, not ASCII-fold-equal
 
 func randStr(r *hx.Rand, maxTok int) string {
 	var sb strings.Builder
@@ -39,7 +40,19 @@ func mutate(r *hx.Rand, s string) string {
 		return randStr(r, 3)
 	}
 	i := r.Intn(len(b))
-	switch r.Intn(7) {
+	switch r.Intn(8) {
+	case 7: // Unicode (non-ASCII) case variant of a two-byte letter, or ASCII case flip elsewhere
+		for j := 0; j+1 < len(b); j++ {
+			if b[j] == 0xc3 && b[j+1] >= 0x80 {
+				b[j+1] ^= 0x20
+				break
+			}
+		}
+		if b[i] >= 'a' && b[i] <= 'z' {
+			b[i] -= 32
+		} else if b[i] >= 'A' && b[i] <= 'Z' {
+			b[i] += 32
+		}
 	case 0:
 		if b[i] >= 'a' && b[i] <= 'z' {
 			b[i] -= 32
